@@ -15,3 +15,7 @@ pub mod world;
 pub mod check7;
 pub mod res_host;
 pub mod res_world;
+pub mod c8_harness;
+pub mod c8_host;
+pub mod c8_world;
+pub mod check8;
